@@ -76,7 +76,7 @@ func crashHistory(h *HistGen, n int) []J {
 func streamC05(c *Ctx) {
 	c.Rule = "(i) close/reopen after every prefix of random write histories on bbolt and badger-on-disk (in every other history some transactions are abandoned before or at their commit by an injected store fault and the history goes on with the same handle): logical state and raw key dump equal to the model's, invariant oracle on the reopened store; " +
 		"(ii) a child process executes a scripted history of batched inserts, bulk updates/deletes and index create/drop, acknowledging each returned operation on a pipe; the parent kills it (SIGKILL) at a uniformly random instant, reopens the directory and requires the raw dump to be the model's state after j operations for j in {acknowledged, acknowledged+1} and the invariant oracle to hold. " +
-		"(iv) every store call of DropCollection / DropIndex / CreateIndex / CreateCollectionByQuery / Delete on a collection with two indexes abandoned in turn, then reopen: the state before the operation, then the operation succeeds. " +
+		"(iv) every store call of DropCollection / DropIndex / CreateIndex / CreateCollectionByQuery / Delete / Insert / Save / UpdateById / ReplaceById / DeleteById / Update / CreateCollection on a collection with two indexes abandoned in turn (the commit included), then reopen: the state before the operation, then the operation succeeds. " +
 		"(iii) a child process importing a file of 4300 documents (more than 4 MiB) is killed at a uniformly random instant of the import's measured duration: the reopened store holds nothing or everything of the collection. " +
 		"non-trivial = distinct (history, kill instant) where at least one operation had been acknowledged and the history was not finished"
 	dr := StartDriver(c.DriverBin)
@@ -182,6 +182,16 @@ func streamC05(c *Ctx) {
 			opLine("createIndex", J{"coll": hx("ab"), "field": hx("z")}),
 			opLine("createCollectionByQuery", J{"coll": hx("cp"), "q": J{"coll": hx("ab"), "crit": J{"cmp": []interface{}{"ge", hx("x"), J{"lit": encValue(int64(1))}}}}}),
 			opLine("delete", J{"q": J{"coll": hx("ab"), "crit": J{"cmp": []interface{}{"ge", hx("x"), J{"lit": encValue(int64(1))}}}}}),
+			// the single-document and bulk writes as well: an operation whose transaction was abandoned - at its commit
+			// too - must say so, and nothing of it may be there after reopening
+			opLine("insert", J{"coll": hx("ab"), "docs": []interface{}{encDoc(map[string]interface{}{"_id": fixedId(11), "x": int64(7), "y": int64(1)}), encDoc(map[string]interface{}{"_id": fixedId(12), "x": int64(8)})}}),
+			opLine("save", J{"coll": hx("ab"), "doc": encDoc(map[string]interface{}{"_id": fixedId(2), "x": int64(40), "y": int64(41)})}),
+			opLine("save", J{"coll": hx("ab"), "doc": encDoc(map[string]interface{}{"_id": fixedId(13), "x": int64(40)})}),
+			opLine("updateById", J{"coll": hx("ab"), "id": hx(fixedId(3)), "upd": J{"setAll": []interface{}{[]interface{}{hx("x"), encValue(int64(50))}}}}),
+			opLine("replaceById", J{"coll": hx("ab"), "id": hx(fixedId(3)), "doc": encDoc(map[string]interface{}{"_id": fixedId(3), "y": int64(9)})}),
+			opLine("deleteById", J{"coll": hx("ab"), "id": hx(fixedId(4))}),
+			opLine("update", J{"q": J{"coll": hx("ab"), "crit": J{"cmp": []interface{}{"ge", hx("x"), J{"lit": encValue(int64(1))}}}}, "upd": J{"setAll": []interface{}{[]interface{}{hx("y"), encValue(int64(60))}}}, "viaUpdate": 1}),
+			opLine("createCollection", J{"coll": hx("nw")}),
 		}
 		for oi, op := range ops {
 			for k := 0; k < 60; k++ {
